@@ -63,6 +63,10 @@ func (s *sim) precond(a Action) error {
 				return fmt.Errorf("no non-loopback interface on this machine")
 			}
 		case "127.0.0.1:0", "127.0.0.1":
+		case "localhost:0", "localhost":
+			if !haveLocalhost {
+				return fmt.Errorf("localhost does not resolve to 127.0.0.1 from /etc/hosts here")
+			}
 		default:
 			return fmt.Errorf("unknown listen form")
 		}
@@ -72,6 +76,10 @@ func (s *sim) precond(a Action) error {
 		}
 	case "tmpl", "del_cache", "sleep":
 	case "regen_cache":
+	case "chain_cache":
+		if up {
+			return fmt.Errorf("only between boots")
+		}
 	case "burst_c":
 		if !up || a.N < 2 || a.N > 8 {
 			return fmt.Errorf("not up or bad burst size")
@@ -134,6 +142,17 @@ func (s *sim) precond(a Action) error {
 		ss := s.sessionN(a.S)
 		if !up || ss == nil || ss.closed || (ss.out == nil && ss.io == nil) {
 			return fmt.Errorf("no output stream")
+		}
+	case "reset_lines":
+		ss := s.sessionN(a.S)
+		if !up || ss == nil || ss.closed || ss.closing || !ss.expectOK || a.N < 1 || a.N > 5 {
+			return fmt.Errorf("no such session")
+		}
+		if ss.io == nil && (ss.in == nil || ss.out == nil) {
+			return fmt.Errorf("shell not complete")
+		}
+		if len(s.ich)+a.N > cap(s.ich) {
+			return fmt.Errorf("operator input buffer full")
 		}
 	case "close":
 		ss := s.sessionN(a.S)
@@ -222,6 +241,16 @@ func (s *sim) apply(a Action) {
 		}
 		s.pre = append(s.pre, c)
 		s.probes["idle_connections_made"]++
+	case "chain_cache":
+		// the operator installs a certificate of their own: leaf and issuing CA
+		// in the cache file's certificate section, the leaf's key in the other
+		pin, err := writeChainCache(s.cachePath)
+		if err != nil {
+			s.harnessErr = "writing chain cache: " + err.Error()
+			return
+		}
+		s.cachePin = pin
+		s.fault("cache_holds_a_chain")
 	case "regen_cache":
 		// another instance (or the operator) replaces the cache file while this
 		// server is running: what is served must stay what is advertised
@@ -251,6 +280,28 @@ func (s *sim) apply(a Action) {
 		if err := c.write(chunk(a.B)); err == nil {
 			ss.sentOut = append(ss.sentOut, a.B...)
 		}
+	case "reset_lines":
+		// The connection carrying operator input dies while lines are being
+		// entered: the reset and the lines land in the same instant, before the
+		// server can have noticed.  Only the one line whose own transmission
+		// fails may be lost; the rest waits for the next shell.
+		ss := s.sessionN(a.S)
+		inC := ss.in
+		if ss.io != nil {
+			inC = ss.io
+		}
+		inC.closeConn(true)
+		if ss.out != nil {
+			ss.out.closeConn(true)
+		}
+		for i := 0; i < a.N; i++ {
+			l := fmt.Sprintf("inflight-%d.%d", len(s.entered), i)
+			s.entered = append(s.entered, l)
+			s.ich <- l
+		}
+		ss.closing = true
+		ss.resetWithLines = true
+		s.fault("conn_reset_with_lines_in_flight")
 	case "close":
 		// The client ends the session.  "out" closes only the upload (the
 		// server must then end the input stream by itself); otherwise the
@@ -872,7 +923,7 @@ func (s *sim) checkTraffic() {
 	// input: everything entered since this shell became ready
 	_, body, eof, _, _ := inC.snapshot()
 	if !eof && len(s.ich) == 0 {
-		prior := 0
+		prior, mayLose := 0, 0
 		for _, o := range s.sess[:ss.n] {
 			oc := o.in
 			if o.io != nil {
@@ -882,14 +933,22 @@ func (s *sim) checkTraffic() {
 				_, ob, _, _, _ := oc.snapshot()
 				prior += bytes.Count(ob, []byte("\n"))
 			}
-		}
-		want := ""
-		if prior <= len(s.entered) {
-			for _, l := range s.entered[prior:] {
-				want += l + "\n"
+			if o.resetWithLines {
+				mayLose++ // the one line whose own transmission error ended that shell
 			}
 		}
-		if string(body) != want {
+		ok := false
+		want := ""
+		for lost := 0; lost <= mayLose && !ok; lost++ {
+			want = ""
+			if prior+lost <= len(s.entered) {
+				for _, l := range s.entered[prior+lost:] {
+					want += l + "\n"
+				}
+			}
+			ok = string(body) == want
+		}
+		if !ok {
 			s.violate("C02", "prompt-over-http", "entered lines have not reached the shell's HTTP client at the quiescent point",
 				"the shell's input connection has received %q; entered since it attached: %q (nothing may wait for further input or a timer)", clip(body), clip([]byte(want)))
 			return
@@ -929,9 +988,20 @@ func (s *sim) checkSessions() {
 				}
 				_, body, eof, done, _ := c.snapshot()
 				if c == ss.out && (!done || !eof) {
-					// net/http answers only once the request body has been
-					// read or ended: let the upload end, as curl's would
-					_ = c.write([]byte("0\r\n\r\n"))
+					// net/http answers a refused upload only once it has read what it
+					// is prepared to read of the body (256 KiB) or the body has ended.
+					// Half of the time the client, like curl -T- fed by a busy shell,
+					// just keeps uploading: the server must give up on it by itself;
+					// otherwise the upload ends.
+					if ss.n%2 == 0 {
+						blob := bytes.Repeat([]byte("refused-output-"), 4096) // 60 KiB per chunk
+						for i := 0; i < 6; i++ {
+							_ = c.write(chunk(blob))
+						}
+						s.probes["refused_upload_keeps_going"]++
+					} else {
+						_ = c.write([]byte("0\r\n\r\n"))
+					}
 					s.settle()
 					_, body, eof, done, _ = c.snapshot()
 				}
